@@ -3,6 +3,7 @@ from __future__ import annotations
 
 import hashlib
 import math
+import os
 
 import numpy as np
 
@@ -507,12 +508,33 @@ def surrogate_history(ctx, rng):
     space = ctrl.parameter_space()
     total = int(rng.integers(4, 7))
     warm = int(rng.integers(2, total - 1))
+    fancy = bool(rng.integers(2))
+    extra = {}
+    if fancy:
+        # the optimizer's public "fancy_logs" option (plots and sub-run logs;
+        # needs a log file); the sub-runs use random sampling because the
+        # default BiPopCMAES cannot write its restart log with the pinned
+        # dependencies (known finding D11 of C12)
+        from moptipy.algorithms.random_sampling import RandomSampling
+        from moptipy.operators.vectors.op0_uniform import Op0Uniform
+        extra = {"fancy_logs": True,
+                 "model_training_algorithm":
+                     lambda v: RandomSampling(Op0Uniform(v)),
+                 "controller_training_algorithm":
+                     lambda v: RandomSampling(Op0Uniform(v))}
+        ctx.count("surrogate_runs_with_fancy_logs")
     algo = SurrogateOptimizer(inst, space, obj, fes_for_warmup=warm,
                               fes_for_training=int(rng.integers(4, 12)),
-                              fes_per_model_run=int(rng.integers(3, 8)))
+                              fes_per_model_run=int(rng.integers(3, 8)),
+                              **extra)
     ex = (Execution().set_solution_space(space).set_objective(obj)
           .set_algorithm(algo).set_max_fes(total)
           .set_rand_seed(int(rng.integers(1 << 62))))
+    tmpdir = None
+    if fancy:
+        import tempfile
+        tmpdir = tempfile.mkdtemp(prefix="verif-c11-")
+        ex.set_log_file(os.path.join(tmpdir, "run.txt"))
     ctx.case()
     try:
         with ex.execute() as p:
@@ -524,11 +546,17 @@ def surrogate_history(ctx, rng):
         ctx.count("undecided_histories_rhs_budget")
         return
     except ValueError as e:
+        if tmpdir:
+            import shutil
+            shutil.rmtree(tmpdir, ignore_errors=True)
         # moptipy re-evaluates the best solution when the process ends
         ctx.violation("surrogate-run-fails-end-validation",
                       f"the run raised {type(e).__name__}: {str(e)[:300]}",
                       case)
         return
+    if tmpdir:
+        import shutil
+        shutil.rmtree(tmpdir, ignore_errors=True)
     # offline check of the recorded history
     ctx.count("surrogate_histories")
     n_model_eval = 0
